@@ -181,8 +181,8 @@ pub fn check_inv(inv : &Inv, runner : &Runner, is_last : bool, mut stats : Optio
 fn inputs_snapshot(inv : &Inv) -> BTreeMap<String, Vec<u8>>
 {
     let targets : BTreeSet<String> = inv.rules.iter().flat_map(|r| r.targets.clone()).collect();
-    inv.before.workspace(super::super::scen::RULER_DIR).into_iter()
-        .filter(|(p, _)| !targets.contains(p) && !p.ends_with(".rules"))
+    inv.before.workspace(&super::super::scen::ruler_dir()).into_iter()
+        .filter(|(p, _)| !targets.contains(p) && !p.ends_with(".rules") && !p.starts_with("Rulesfile"))
         .map(|(p, (c, _))| (p, (*c).clone())).collect()
 }
 
